@@ -213,7 +213,7 @@ func buildObjectResponse(msg *Message, o *object.Object, start time.Time, kind s
 			buf.WriteString(`,"hash":`)
 		}
 		center := o.Geo().Center()
-		p := geohash.EncodeWithPrecision(center.Y, center.X, uint(precision))
+		p := geohashOf(center.Y, center.X, uint(precision))
 		if msg.OutputType == JSON {
 			buf.WriteString(`"` + p + `"`)
 		} else {
